@@ -120,10 +120,10 @@ inductive Scoring (α β : Type)
   | some (m : Metric α β)
 
 /-- THE one place that fixes how `evaluate` hands a fold's truth and forecast to the metric
-`μ : y_true → y_pred → score`.  The code as it stands calls `scoring(y_pred, y_test)`, i.e. with
-the two arguments exchanged (known finding C07 `evaluate:score-args-swapped`). -/
+`μ : y_true → y_pred → score`: `score = scoring(y_test, y_pred)` (the order was exchanged before
+/repo commit 0f68875, recorded as fixed finding C07 `evaluate:score-args-swapped`). -/
 def applyMetric {α β} (μ : Series α → Series α → β) (yTest yPred : Series α) : β :=
-  μ yPred yTest
+  μ yTest yPred
 
 /-- one row of the result table (the timing columns are not modelled) -/
 structure Row (α β : Type) where
